@@ -4,6 +4,7 @@ import SciVerif.Lemmas.C10g
 import SciVerif.Lemmas.C10i
 import SciVerif.Lemmas.C10j
 import SciVerif.Lemmas.C10k
+import SciVerif.Lemmas.C10n
 import SciVerif.Facts.C10Table
 
 /-!
@@ -62,10 +63,14 @@ theorem C10_solver_partial (valid : Str → Bool) (f : F) (hwf : f.wf = true)
       some (.sub ((expand f).map fun kn => (kn.1, (kn.2 : Rat)))) := by
   rw [(solve_explicit_aux valid f (wf_factorOK f hwf) hs).2 fuel hfuel, C10_counts_partial]
 
-/-- The remaining link of the text-level statement, NOT proved: the four regex passes of
-    `SubstanceSolver.preprocess` (modelled by four scanners) rewrite the documented short notation
-    into the explicit solver text.  Evaluated by the driver on every generated formula and the
-    scanners are compared with the real regexes on every run. -/
+/-- The remaining link of the text-level statement.  PROVED for parenthesis-free formulas
+    (`C10_preprocess_partial`, including the order-independence of the pass-1 fixed point over
+    merged capital runs) and for explicit text (`preprocess_explicit`).  NOT proved: formulas with
+    parenthesised groups in the short notation — the rewriting of `X (`, `)n X`, `)n (` by passes
+    3 and 4 (their look-behind run `[^*+(\s]*` / look-ahead `[^+*)\s]*` crosses item boundaries)
+    and the interplay of passes 1 and 2 with text inside and next to groups — and a trailing
+    explicit ` * n` mixed into the short notation.  Evaluated by the driver on every generated
+    formula; the scanners are compared with the real regexes on every run. -/
 def C10_preprocess_statement : Prop :=
   ∀ (f : F), f.wf = true → (∀ k ∈ speciesOf f, isSpeciesText k = true) →
     preprocess (render f) = renderExplicit f
@@ -102,6 +107,34 @@ theorem C10_counts_explicit_text_partial (valid : Str → Bool) (f : F) (hwf : f
     | cons a t => rfl
   simp only [substanceOf, he, solveStr, preprocess_explicit f hst]
   rw [C10_solver_partial valid f hwf hok _ (by omega)]
+  simp
+
+/-- Proved fragment of `C10_preprocess_statement`: for every PARENTHESIS-FREE formula — species,
+    species with counts, juxtaposition with any number of blanks (also none, so that single
+    capitals merge into runs such as `CHON`), explicit ` + ` — the four passes of
+    `SubstanceSolver.preprocess` rewrite the short notation into the explicit solver text.
+    Pass 1 (the fixed point of single substitutions) is shown to resolve exactly one implicit
+    addition per substitution whatever position the leftmost match picks (it depends on merged
+    capital runs), so its fixed point is independent of the order. -/
+theorem C10_preprocess_partial (f : F) (hf : f.flat) (hs : f.spAll SpeciesShape) :
+    preprocess (render f) = renderExplicit f :=
+  preprocess_flat f hf hs
+
+/-- TEXT level, unconditional, SHORT notation, parenthesis-free formulas (`H2O`, `C2H5OH`,
+    `NaCl`, `C{13}O2`, `H2 S O4`, `Na{23} + Cl`, …): `Substance(text)` through the whole modelled
+    pipeline has exactly the expanded counts. -/
+theorem C10_counts_text_flat_partial (valid : Str → Bool) (f : F) (hf : f.flat)
+    (hs : f.spAll fun s => SpeciesShape s ∧ valid s = true) :
+    substanceOf valid (render f) = some ((expand f).map fun kn => (kn.1, (kn.2 : Rat))) := by
+  have hsh : f.spAll SpeciesShape := spAll_mono (fun s h => h.1) f hs
+  have hok : f.spAll (SpeciesOK valid) :=
+    spAll_mono (fun s h => speciesOK_of_text valid s (speciesText_of_shape s h.1) h.2) f hs
+  have he : (render f).isEmpty = false := by
+    cases h : render f with
+    | nil => exact absurd h (render_flat_ne_nil f hf hsh)
+    | cons a t => rfl
+  simp only [substanceOf, he, solveStr, preprocess_flat f hf hsh]
+  rw [(solve_explicit_aux valid f (flat_factorOK f hf) hok).2 _ (by omega), C10_counts_partial]
   simp
 
 /-- each species is counted exactly as often as it occurs in the expanded formula, and no
@@ -252,5 +285,11 @@ example : exF.spAll (fun s => SpeciesShape s ∧ (fun _ => true) s = true) := by
   exact ⟨⟨⟨one 'O' (by decide), rfl⟩, ⟨one 'H' (by decide), rfl⟩⟩,
     ⟨⟨one 'C' (by decide), rfl⟩, ⟨one 'H' (by decide), rfl⟩⟩⟩
 example : String.ofList (renderExplicit exF) = "(O + H) * 2 + (C + H * 3) * 3" := by decide +kernel
+/-- a parenthesis-free formula with a merged capital run: `C2H5OH` -/
+def exFlat : F :=
+  .seq 0 (.seq 0 (.seq 0 (.count (.sp ['C']) 2) (.count (.sp ['H']) 5)) (.sp ['O'])) (.sp ['H'])
+example : exFlat.flat ∧ String.ofList (render exFlat) = "C2H5OH" ∧
+    String.ofList (renderExplicit exFlat) = "C * 2 + H * 5 + O + H" := by
+  refine ⟨⟨⟨⟨trivial, trivial⟩, trivial⟩, trivial⟩, by decide +kernel, by decide +kernel⟩
 
 end SciVerif.C10
